@@ -85,6 +85,11 @@ KANI_RANGES_MULTIPLE = {
 }
 
 PROPS = {
+    "C05": {
+        "level": "proof",
+        "verus": ["c05_plural_select"],
+        "kani": [],
+    },
     "C19": {
         "level": "proof",
         "verus": ["c19_config"],
